@@ -25,6 +25,8 @@ profile. They exist because seeded changes of round 2 needed them to manifest (D
  p_two_patched_downloads  two (or three) different downloaded modules with patches in one build: every one of them renders the GIT_PATCH rule
  p_custom_build_no_out a custom build (`build:`) without `out` / with an empty `out` list, in a configured build
  p_cli_comma_define   a `-D` value containing commas and further `=` signs (`-D LIBS=-Wl,-Map=out.map`): one assignment, split at the first `=`
+ p_self_named_unique  a module named like the feature it claims with `provides_unique` (the default implementation of `stdio` is called
+                      `stdio`), plus another provider of that name, selected in either order
  p_subdirs_later_doc  a multi-document file listing a sub-directory from a document that is not the first, with different defaults
 """
 import copy, random
@@ -410,6 +412,21 @@ def cli_comma_define(p, rng):
     a["define"] = list(a.get("define") or []) + [var + rng.choice(["=", "+="]) + val]
 
 
+def self_named_unique(p, rng):
+    root = _root(p)
+    mods = root.setdefault("modules", [])
+    how = rng.choice(["unique", "unique", "conflicts+provides"])
+    if how == "unique":
+        mods.append({"name": "snfeat", "provides_unique": ["snfeat"], "sources": ["snfeat.c"]})
+    else:
+        mods.append({"name": "snfeat", "conflicts": ["snfeat"], "provides": ["snfeat"], "sources": ["snfeat.c"]})
+    mods.append({"name": "snalt", "provides": ["snfeat"], "sources": ["snalt.c"]})
+    order = rng.choice([["snfeat", "?snalt"], ["snalt", "?snfeat"], ["?snalt", "?snfeat"], ["snfeat", "snalt"]])
+    for kind, a, pa, dd in _modules(p, ("apps",)):
+        kk = "selects" if "selects" in a or "depends" not in a else "depends"
+        a[kk] = order + list(a.get(kk) or [])
+
+
 def subdirs_later_doc(p, rng):
     docs = p["files"]["laze-project.yml"]
     root = docs[0]
@@ -427,7 +444,7 @@ def subdirs_later_doc(p, rng):
 
 
 SHAPES = [("p_rule_rename_chain", rule_rename_chain), ("p_ifthen_feature_cond", ifthen_feature_cond), ("p_empty_blockallow", empty_blockallow),
-          ("p_rule_export_escape", rule_export_escape), ("p_optsrc_same_guard", optsrc_same_guard), ("p_subdirs_later_doc", subdirs_later_doc), ("p_cli_comma_define", cli_comma_define), ("p_custom_build_no_out", custom_build_no_out), ("p_two_patched_downloads", two_patched_downloads), ("p_shadowed_provider", shadowed_provider),
+          ("p_rule_export_escape", rule_export_escape), ("p_optsrc_same_guard", optsrc_same_guard), ("p_subdirs_later_doc", subdirs_later_doc), ("p_self_named_unique", self_named_unique), ("p_cli_comma_define", cli_comma_define), ("p_custom_build_no_out", custom_build_no_out), ("p_two_patched_downloads", two_patched_downloads), ("p_shadowed_provider", shadowed_provider),
           ("p_dup_listing", dup_listing), ("p_ctx_shuffle", ctx_shuffle), ("p_app_dup", app_dup), ("p_rule_field_variant", rule_field_variant),
           ("p_defaults_lists", defaults_lists), ("p_global_dep_order", global_dep_order), ("p_late_ifthen_leaf", late_ifthen_leaf)]
 
